@@ -148,7 +148,9 @@ class Ctx:
         d = self._spec_dir("tlc_" + module)
         cfg = cfg or module + ".cfg"
         workers = workers or min(NCPU, 16)
-        java = ["java", "-XX:+UseParallelGC", "-Xss64m"]
+        jt = os.path.join(d, "jtmp")
+        os.makedirs(jt, exist_ok=True)
+        java = ["java", "-XX:+UseParallelGC", "-Xss64m", "-Djava.io.tmpdir=" + jt]     # SANY / TLC unpack their modules there
         if heap:
             java.append("-Xmx" + heap)
         if dfs:
